@@ -11,6 +11,8 @@ import (
 	"go.opentelemetry.io/collector/component"
 	"go.opentelemetry.io/collector/component/componentstatus"
 	"go.opentelemetry.io/collector/component/componenttest"
+	"go.opentelemetry.io/collector/extension"
+	"go.opentelemetry.io/collector/service/internal/builders"
 	"go.opentelemetry.io/collector/service/internal/status"
 )
 
@@ -181,29 +183,79 @@ func TestVerifC11Ext(t *testing.T) {
 			// what service.Host.NotifyComponentStatusChange does with an accepted event
 			bes.NotifyComponentStatusChange(id, ev)
 		}, func(error) {})
-		// the real constructor (no configured extensions) so that every field is initialised the way New does it;
-		// the scripted extensions are then registered by hand in start order
-		bes, err := New(context.Background(), Settings{Telemetry: componenttest.NewNopTelemetrySettings()}, Config{}, WithReporter(run.rep))
-		if err != nil {
-			t.Fatal(err)
-		}
+		// the REAL constructor on a generated service::extensions list: extensions.New creates the extensions through their
+		// factory, registers the InstanceIDs and computes the start order (computeOrder).  40 % of the lists name an extension
+		// MORE THAN ONCE (nothing validates against that): the order must still contain every extension exactly once, so that
+		// every watcher is handed every accepted event exactly once and Start/Shutdown run once.
 		exts := make([]*vC11Ext, nn)
 		watcher := make([]bool, nn)
+		var cfgList Config
+		var cfgIdx []int
+		cfgs := map[component.ID]component.Config{}
 		for i := 0; i < nn; i++ {
 			cid := component.MustNewIDWithName("x", fmt.Sprint(i))
-			id := componentstatus.NewInstanceID(cid, component.KindExtension)
-			exts[i] = &vC11Ext{i: i, run: run, id: id, startRep: vC11Reports(rng, 3), stopRep: vC11Reports(rng, 2),
+			exts[i] = &vC11Ext{i: i, run: run, startRep: vC11Reports(rng, 3), stopRep: vC11Reports(rng, 2),
 				startErr: rng.Intn(100) < 12, stopErr: rng.Intn(100) < 20, errKind: rng.Intn(16)}
-			idx[id] = i
 			watcher[i] = rng.Intn(100) < 60
 			if watcher[i] {
-				bes.extMap[cid] = vC11Watcher{exts[i]}
 				out.Stat("watcher_extensions", 1)
-			} else {
-				bes.extMap[cid] = exts[i]
 			}
-			bes.instanceIDs[cid] = id
-			bes.extensionIDs = append(bes.extensionIDs, cid)
+			cfgs[cid] = &struct{}{}
+			cfgList = append(cfgList, cid)
+			cfgIdx = append(cfgIdx, i)
+		}
+		if rng.Intn(100) < 40 {
+			for k := 1 + rng.Intn(2); k > 0; k-- {
+				d := rng.Intn(nn)
+				at := rng.Intn(len(cfgList) + 1)
+				cfgList = append(cfgList[:at], append(Config{component.MustNewIDWithName("x", fmt.Sprint(d))}, cfgList[at:]...)...)
+				cfgIdx = append(cfgIdx[:at], append([]int{d}, cfgIdx[at:]...)...)
+			}
+			out.Stat("configs_naming_an_extension_twice", 1)
+		}
+		factory := extension.NewFactory(component.MustNewType("x"), func() component.Config { return &struct{}{} },
+			func(_ context.Context, set extension.Settings, _ component.Config) (extension.Extension, error) {
+				var i int
+				fmt.Sscan(set.ID.Name(), &i)
+				if watcher[i] {
+					return vC11Watcher{exts[i]}, nil
+				}
+				return exts[i], nil
+			}, component.StabilityLevelDevelopment)
+		var err error
+		var panicked any
+		func() {
+			defer func() { panicked = recover() }()
+			bes, err = New(context.Background(), Settings{
+				Telemetry:  componenttest.NewNopTelemetrySettings(),
+				BuildInfo:  component.NewDefaultBuildInfo(),
+				Extensions: builders.NewExtension(cfgs, map[component.Type]extension.Factory{component.MustNewType("x"): factory}),
+			}, cfgList, WithReporter(run.rep))
+		}()
+		if panicked != nil || err != nil {
+			// no component dependencies are declared, so New must succeed on every list (duplicates included)
+			cs := make([]string, len(cfgIdx))
+			for i, c := range cfgIdx {
+				cs[i] = vPair(vNat(c), vZ(301))
+			}
+			out.Oracle("extensions-new-fails-on-valid-configuration", vPair("5", vPair(vList(cs), vList(nil))),
+				fmt.Sprintf("service::extensions = %v: extensions.New panicked (%v) / returned %v", cfgIdx, panicked, err))
+			continue
+		}
+		for cid, id := range bes.instanceIDs {
+			var i int
+			fmt.Sscan(cid.Name(), &i)
+			idx[id] = i
+			exts[i].id = id
+		}
+		// the order New computed (start order, reverse stop order, notification order)
+		var order []int
+		seenInOrder := map[int]int{}
+		for _, cid := range bes.extensionIDs {
+			var i int
+			fmt.Sscan(cid.Name(), &i)
+			order = append(order, i)
+			seenInOrder[i]++
 		}
 		startErr := bes.Start(context.Background(), componenttest.NewNopHost())
 		lenAfterStart := len(run.got)
@@ -230,6 +282,14 @@ func TestVerifC11Ext(t *testing.T) {
 				break
 			}
 			st[e[0]] = e[1]
+		}
+		// the order contains every configured extension exactly once
+		for i := 0; i < nn; i++ {
+			if seenInOrder[i] != 1 {
+				out.Oracle("extension-order-not-a-duplicate-free-enumeration", term,
+					fmt.Sprintf("service::extensions = %v: extension %d appears %d times in the computed order %v (started / stopped / notified that often)", cfgIdx, i, seenInOrder[i], order))
+				break
+			}
 		}
 		// every status watcher is delivered EVERY accepted event of every instance, in order — whether or not the
 		// watcher itself has been started yet (so that what it sees for an instance begins with Starting)
@@ -270,9 +330,15 @@ func TestVerifC11Ext(t *testing.T) {
 		out.Case(len(run.got) > 0, term)
 		// the watcher path as a correspondence case of its own (kind 5): watchers in start order, then the same script
 		var wsc []string
-		for w := 0; w < nn; w++ {
-			if watcher[w] {
-				wsc = append(wsc, vPair(vNat(w), vZ(300)))
+		for _, c := range cfgIdx {
+			wsc = append(wsc, vPair(vNat(c), vZ(301))) // the configured list, duplicates included
+		}
+		nw := 0
+		for _, o := range order {
+			wsc = append(wsc, vPair(vNat(o), vZ(302))) // the order extensions.New computed
+			if watcher[o] {
+				wsc = append(wsc, vPair(vNat(o), vZ(300))) // ... and the watchers in that order
+				nw++
 			}
 		}
 		dl := make([]string, len(run.deliv))
@@ -280,7 +346,7 @@ func TestVerifC11Ext(t *testing.T) {
 			dl[i] = vPair(vNat(d[0]*100+d[1]), vZ(int64(d[2])))
 		}
 		out.Case(len(run.deliv) > 0, vPair("5", vPair(vList(append(wsc, sc...)), vList(dl))))
-		out.Stat(fmt.Sprintf("watchers_per_run_%d", len(wsc)), 1)
+		out.Stat(fmt.Sprintf("watchers_per_run_%d", nw), 1)
 		out.Stat("auto_ok_delivered", autoOK)
 		out.Stat("auto_ok_suppressed", noAutoOK)
 		if startErr != nil {
